@@ -5,6 +5,7 @@ import (
 	"encoding/json"
 	"fmt"
 	"math/rand"
+	"os"
 	"regexp"
 	"strings"
 
@@ -138,6 +139,9 @@ func envelopeCheck(resp map[string]interface{}, text string, lines map[string]ma
 					}
 					if bad != "" {
 						if lookahead && c07LookaheadExplains(msg, line, col, docLines) {
+							if os.Getenv("VERIF_C07_MSGS") != "" {
+								fmt.Fprintf(os.Stderr, "LOOKAHEAD-MSG %s\n", c07MsgShape(msg))
+							}
 							return bad, true
 						}
 						return bad, false
@@ -149,6 +153,13 @@ func envelopeCheck(resp map[string]interface{}, text string, lines map[string]ma
 	return "", false
 }
 
+var shapeIdentRe = regexp.MustCompile(`'[^']*'|"[^"]*"|\$?[A-Za-z_][A-Za-z0-9_]*[0-9_][A-Za-z0-9_]*|[0-9]+`)
+
+// c07MsgShape reduces an error message to its template (quoted parts, generated identifiers and numbers blanked).
+func c07MsgShape(msg string) string { return shapeIdentRe.ReplaceAllString(msg, "#") }
+
+var c07ArgNameMsgRe = regexp.MustCompile(`^validation: \S+ is not an argument to \S+$`)
+
 var quotedTokenRe = regexp.MustCompile(`'([A-Za-z0-9_]+)'`)
 
 // c07LookaheadExplains is the K-C07-lookahead defect model: parse-time locations are computed as
@@ -158,6 +169,11 @@ var quotedTokenRe = regexp.MustCompile(`'([A-Za-z0-9_]+)'`)
 // than the length of the previous line.
 func c07LookaheadExplains(msg string, line, col int, docLines []string) bool {
 	if line < 2 || line-2 >= len(docLines) || col > 0 {
+		return false
+	}
+	// the finding is identified by its call sites: the scanner's own "parse error" sites and the argument-name check,
+	// the only ones that report a position taken after the look-ahead. Any other message with such a position is new.
+	if !strings.HasPrefix(msg, "parse error: ") && !c07ArgNameMsgRe.MatchString(msg) {
 		return false
 	}
 	prev := strings.TrimRight(docLines[line-2], "\r")
